@@ -269,6 +269,8 @@ def run(m, tier):
     results.append(r16)
     from rules import prog_rules
     results.append(prog_rules.nesting_rule(m, "C08.R17", tier))
+    from rules import order_rules as _or_gb
+    results.append(_or_gb.giveback_complete_rule(m, "C08.R18"))
     expl = ("Decides the structural clauses of C08: the table of block constructs extracted from every "
             "BlockBase.match call site agrees with the Fortran 2003/2008 rules (opening/END pair, name and label "
             "comparison flags), every END statement class names its keyword and refuses a bare END where the standard "
